@@ -369,7 +369,22 @@ func init() {
 	M("(*sync.RWMutex).RUnlock", func(p *Path, a []Value, pos token.Pos) Value { p.unlock(a[0].(*Value), true); return nil })
 	M("(*sync.Once).Do", func(p *Path, a []Value, pos token.Pos) Value {
 		o := a[0].(*Value)
+		p.yield("once")
 		if p.onceDone[o] {
+			return nil
+		}
+		if p.onceRunning[o] {
+			// another goroutine is inside f: Do returns only after f has returned
+			p.waitUntil(func() bool { return p.onceDone[o] }, "sync.Once.Do", pos)
+			return nil
+		}
+		if p.multi() {
+			p.onceRunning[o] = true
+			func() {
+				// Go marks the Once done even when f panics
+				defer func() { p.onceDone[o] = true; delete(p.onceRunning, o) }()
+				p.call(nil, pos, a[1], nil)
+			}()
 			return nil
 		}
 		p.onceDone[o] = true
